@@ -42,4 +42,5 @@ def check_and_dump(consts, workdir, dump=True, coverage=False, timeout=3600, wor
   res = tlc.run_tlc('VizierService', cfg, workdir, workers=workers or 1, coverage=coverage, timeout=timeout)
   tlc.must_ok(res, 'VizierService/' + name)
   recs = [r for r in res.printed_json() if r['hist']] if dump else []
+  res.drop_printed()          # the parsed records are kept, TLC's text of them is not
   return res, recs
